@@ -163,14 +163,14 @@ def build_target(fam, variant, target, uid, env):
     passed = []
     if target == 'shared-model':
         model = tatsu.compile(G, **C.decode_opts(variant, env, 0, passed))
-        return (lambda: model.parse), model
+        return (lambda: model.parse), model, passed
     src = tatsu.to_python_sourcecode(G)
     cls = C._find_class(C._exec_module(src, env), 'Parser')
     kopts = C.decode_opts({k: v for k, v in variant.items() if k == 'semantics'}, env, 0, passed)
     if target == 'shared-parser-class':
-        return (lambda: (lambda text, **o: cls(**kopts).parse(text, **o))), cls
+        return (lambda: (lambda text, **o: cls(**kopts).parse(text, **o))), cls, passed
     inst = cls(**kopts)
-    return (lambda: inst.parse), inst
+    return (lambda: inst.parse), inst, passed
 
 
 def one_run(cfg, sched, env, cold=False):
@@ -187,8 +187,10 @@ def one_run(cfg, sched, env, cold=False):
             items.append((x, rng.choice(CALL_OPTS[fam])))
         work.append(items)
     uid = f"{cfg['seed']}-{cfg.get('rep', 0)}"
-    factory, shared = build_target(fam, variant, target, uid + 'a', env)
-    twin_factory, _twin = build_target(fam, variant, 'shared-model' if target == 'shared-model' else 'shared-parser-class',
+    factory, shared, passed = build_target(fam, variant, target, uid + 'a', env)
+    # the caller-owned objects all threads hand to the shared model: the per-call semantics objects, the model's own
+    passed = list(passed) + [('semantics', o) for _n, o in sorted(sems.items())]
+    twin_factory, _twin, _ = build_target(fam, variant, 'shared-model' if target == 'shared-model' else 'shared-parser-class',
                                        uid + 'b', env)
 
     def sequential(fac):
@@ -205,7 +207,7 @@ def one_run(cfg, sched, env, cold=False):
     if cfg.get('warm'):
         # the shared object has been used once before the threads start
         _canon_call(factory(), work[0][0][0], {})
-    before = C.snapshot(shared, []) if target == 'shared-model' else None
+    before = C.snapshot(shared if target == 'shared-model' else None, passed)
     results = [[None] * per for _ in range(n)]
     barrier = threading.Barrier(n)
     sched.reset(cfg['p'])
@@ -231,7 +233,7 @@ def one_run(cfg, sched, env, cold=False):
         sched.stop()
         sys.setswitchinterval(old)
     hung = sum(1 for th in threads if th.is_alive())
-    after = C.snapshot(shared, []) if target == 'shared-model' else None
+    after = C.snapshot(shared if target == 'shared-model' else None, passed)
     if expected is None:
         expected = sequential(twin_factory)
     post = sequential(factory) if target != 'shared-parser-instance' else None
@@ -249,7 +251,7 @@ def one_run(cfg, sched, env, cold=False):
             if r != expected[key]:
                 post_div.append({'text': key[0], 'opts': key[1], 'expected': expected[key], 'observed': r})
     return {'compared': compared, 'div': div, 'post_compared': len(post or {}), 'post_div': post_div,
-            'state': C.state_diff(before, after) if before is not None else [],
+            'state': [list(x[:2]) for x in C.state_diff(before, after)], 'args_snapshotted': len(before['args']),
             'yields': sched.yields, 'switches': sched.nswitch, 'lines': sched.lines,
             'sig': h64(sched.switches), 'nsig': len(sched.switches), 'hung': hung,
             'accepted': sum(1 for v in expected.values() if not (isinstance(v, dict) and '@exc' in v)),
@@ -320,9 +322,11 @@ def judge(acc, cfg, obs, prop, origin):
             acc.violation(sig, f'{cfg["n"]} threads on one {temp} {target} (grammar {cfg["fam"]}, {cfg["variant"]}): '
                                f'{d["text"]!r} {d["opts"]} gave {short(d["observed"])}, sequentially {short(d["expected"])}',
                           dict(cfg, mode='threads', example=d, origin=origin))
+    acc.count('thread_run_argument_objects_snapshotted', obs.get('args_snapshotted', 0))
     for what, fields in obs['state']:
+        whose = 'a caller-owned argument object' if what == 'passed-argument' else f'its {what}'
         acc.violation(f'state/{what}-changed-by-concurrent-parses:' + '+'.join(fields),
-                      f'{cfg["n"]} threads parsing on one shared model altered its {what} ({fields})',
+                      f'{cfg["n"]} threads parsing on one {target} altered {whose} ({fields})',
                       dict(cfg, mode='threads', origin=origin))
 
 
